@@ -3,8 +3,9 @@
    returns for each focus/value node under the SHACL-SPARQL pre-bindings). Proved here is what
    pySHACL itself does with those rows. *)
 From Coq Require Import List NArith Bool.
+From Coq Require String.
 From Verif Require Import Base.SetList Base.Terms Base.Vocab Paths.Path Shapes.AST Shapes.Leaf Shapes.Eval
-  Shapes.EvalProofs Shapes.SparqlProofs.
+  Shapes.EvalProofs Shapes.SparqlProofs Sparql.Message Sparql.MessageProofs.
 Import ListNotations.
 
 (* The rows kept by an sh:sparql constraint are exactly the distinct solutions of its query:
@@ -56,4 +57,41 @@ Print Assumptions C05_ask_component.
 Definition r1 := {| sol_failure := false; sol_this := Some (IRI 1); sol_path := None; sol_value := Some (IRI 2); sol_rest := 1; sol_msgs := [LIT 10 0 0] |}.
 Definition r2 := {| sol_failure := false; sol_this := Some (IRI 1); sol_path := None; sol_value := Some (IRI 2); sol_rest := 2; sol_msgs := [LIT 11 0 0] |}.
 Example C05_nonvacuous : map sol_msgs (dedup_sols [r1; r2; r1]) = [[LIT 10 0 0]; [LIT 11 0 0]].
+Proof. vm_compute. reflexivity. Qed.
+
+(* ---- message templates (model of the {?var}/{$var} substitution; tied to both code sites by the
+   correspondence run of this check) ---- *)
+
+(* the scanner cuts a template into literal text and holes without dropping or inventing a character *)
+Theorem C05_template_segments : forall t, cat (map show (parse t)) = t.
+Proof. exact parse_spells_template. Qed.
+Print Assumptions C05_template_segments.
+
+(* a bound placeholder is replaced by the value exactly as it is - whatever the value contains (braces,
+   backslashes, text that looks like a placeholder), it is not looked at again *)
+Theorem C05_value_verbatim : forall b pre sg n v rest,
+  lbrace_free pre = true -> is_sigil sg = true -> n <> String.EmptyString -> brace_free n = true -> lookup b n = Some v ->
+  subst b (String.append pre (String.String lbrace (String.String sg (String.append n (String.String rbrace rest)))))
+  = String.append pre (String.append v (subst b rest)).
+Proof. exact subst_hole. Qed.
+Print Assumptions C05_value_verbatim.
+
+(* a placeholder whose variable the solution does not bind stays as written *)
+Theorem C05_unbound_kept : forall b pre sg n rest,
+  lbrace_free pre = true -> is_sigil sg = true -> n <> String.EmptyString -> brace_free n = true -> lookup b n = None ->
+  subst b (String.append pre (String.String lbrace (String.String sg (String.append n (String.String rbrace rest)))))
+  = String.append pre (String.String lbrace (String.String sg (String.append n (String.String rbrace (subst b rest))))).
+Proof. exact subst_unbound. Qed.
+Print Assumptions C05_unbound_kept.
+
+(* the message depends on the bindings of the variables its template names and on nothing else:
+   "that solution's own bindings only" *)
+Theorem C05_message_own_bindings : forall b b' t,
+  (forall n, In n (holes t) -> lookup b n = lookup b' n) -> subst b t = subst b' t.
+Proof. exact subst_own_bindings. Qed.
+Print Assumptions C05_message_own_bindings.
+
+(* ex_template = "v={?value} on {$this}, {?other} {?} {" with ?value = "C:\dir {$this}" and $this = "ex:a"
+   gives "v=C:\dir {$this} on ex:a, {?other} {?} {" (definitions in Sparql/MessageProofs.v) *)
+Example C05_message_nonvacuous : subst ex_bindings ex_template = ex_result.
 Proof. vm_compute. reflexivity. Qed.
